@@ -9,7 +9,7 @@ cd "$S" || exit 2
 tools/build_all.sh > /tmp/vsnap_build.log 2>&1 || { echo "SNAPSHOT build failed"; tail -20 /tmp/vsnap_build.log; exit 1; }
 tools/runall.sh quick 1 8 > /tmp/vsnap_run.log 2>&1
 if grep -v " exit=0 " /tmp/vsnap_run.log | grep -q exit=; then echo "SNAPSHOT not green:"; grep -v " exit=0 " /tmp/vsnap_run.log; exit 1; fi
-PYTHONPATH=/repo/src:$S PYTHONDONTWRITEBYTECODE=1 /venv/bin/python tools/mkmanifest.py >/dev/null 2>&1; tools/mkreport.py >/dev/null; PYTHONPATH=/repo/src:$S PYTHONDONTWRITEBYTECODE=1 /venv/bin/python tools/regen.py >/dev/null 2>&1
+PYTHONPATH=/repo/src:$S PYTHONDONTWRITEBYTECODE=1 /venv/bin/python tools/mkmanifest.py >/dev/null 2>&1; PYTHONPATH=/repo/src:$S PYTHONDONTWRITEBYTECODE=1 /venv/bin/python tools/mkreport.py >/dev/null; PYTHONPATH=/repo/src:$S PYTHONDONTWRITEBYTECODE=1 /venv/bin/python tools/regen.py >/dev/null 2>&1
 git add -A && git commit -q -m "$MSG" || exit 1
 H=$(git rev-parse HEAD)
 cd /verif && git fetch -q "$S" main && git reset -q --mixed "$H" && echo "committed $H" && git log --oneline -1
